@@ -18,11 +18,9 @@ theorem lookup_none_iff (e : Env) (k : Str) : lookup e k = none ↔ k ∉ keys e
     obtain ⟨k', v⟩ := x
     by_cases h : k' = k
     · simp [lookup, keys, h]
-    · simp only [lookup, h, if_false, keys, List.map_cons, List.mem_cons, not_or] at *
-      rw [ih]
-      constructor
-      · intro h'; exact ⟨fun e => h e.symm, h'⟩
-      · intro h'; exact h'.2
+    · have hk : ¬ k = k' := fun e => h e.symm
+      simp only [lookup, h, if_false, keys, List.map_cons, List.mem_cons, not_or, hk, not_false_eq_true, true_and]
+      simpa [keys] using ih
 
 theorem lookup_of_mem (e : Env) (k v : Str) (hn : (keys e).Nodup) (hm : (k, v) ∈ e) : lookup e k = some v := by
   induction e with
@@ -63,7 +61,7 @@ theorem lookup_filter (e : Env) (p : Str → Bool) (k : Str) :
     · by_cases hk : k' = k
       · subst hk
         simp only [Bool.not_eq_true] at hp
-        simp [List.filter, hp, lookup, ih]
+        simp [List.filter, hp, ih]
       · simp only [Bool.not_eq_true] at hp
         simp [List.filter, hp, lookup, hk, ih]
 
@@ -136,5 +134,144 @@ theorem foldl_eval_env (cs : List Cmd) (sh : Sh) (h : ∀ c ∈ cs, ∀ e, c ≠
     cases c with
     | «export» e => exact absurd rfl (h _ (by simp) e)
     | _ => rfl
+
+/-! ### the prolog is inside the evaluated fragment -/
+
+theorem lineOk_wf {t : Str} (h : lineOk t = true) : (Cmd.line t).WF := by
+  simp only [lineOk, Bool.and_eq_true, Bool.or_eq_true, Bool.not_eq_true', List.contains_eq_mem,
+    decide_eq_false_iff_not] at h
+  refine ⟨?_, h.2⟩
+  cases t with
+  | nil => exact Or.inl rfl
+  | cons c r =>
+    right
+    have : c = '#' := by simpa [headIs] using h.1
+    exact ⟨r, by rw [this]⟩
+
+theorem const_lines_ok :
+    Consts.C13.prologHeader.all lineOk = true ∧ lineOk Consts.C13.prologArraysComment = true ∧
+    lineOk Consts.C13.prologEnvComment = true ∧ lineOk [] = true := by decide
+
+theorem const_names_ident :
+    isIdent Consts.C13.arrayAll = true ∧ isIdent Consts.C13.arrayDep = true ∧ isIdent Consts.C13.arrayTool = true ∧
+    isIdent Consts.C13.varPath = true ∧ isIdent Consts.C13.varLdLibraryPath = true ∧
+    isIdent Consts.C13.varBobCwd = true := by decide
+
+theorem const_names_distinct :
+    Consts.C13.varPath ≠ Consts.C13.varLdLibraryPath ∧ Consts.C13.varPath ≠ Consts.C13.varBobCwd ∧
+    Consts.C13.varLdLibraryPath ≠ Consts.C13.varBobCwd := by decide
+
+theorem mem_sortElems {e : Str × Str} {es : List (Str × Str)} : e ∈ sortElems es ↔ e ∈ es :=
+  (List.mergeSort_perm es _).mem_iff
+
+theorem mem_sortExports {e : Export} {xs : List Export} : e ∈ sortExports xs ↔ e ∈ xs :=
+  (List.mergeSort_perm xs _).mem_iff
+
+theorem arrayCmds_wf (abs : Str → Str) (s : Spec) (h : Spec.WF abs s) : ∀ c ∈ arrayCmds abs s, c.WF := by
+  have hn := h.names
+  have key : ∀ (ps : List (Str × Str)), (∀ np ∈ ps, np ∈ s.allPaths ++ s.depPaths ++ s.toolPaths) →
+      ∀ kv ∈ sortElems (absPairs abs ps), kv.1 ≠ [] ∧ NoNul kv.1 ∧ NoNul kv.2 := by
+    intro ps hps kv hkv
+    rw [mem_sortElems] at hkv
+    simp only [absPairs, List.mem_map] at hkv
+    obtain ⟨np, hnp, rfl⟩ := hkv
+    exact hn np (hps np hnp)
+  intro c hc
+  simp only [arrayCmds, List.mem_cons, List.mem_nil_iff, or_false] at hc
+  rcases hc with rfl | rfl | rfl
+  · exact ⟨const_names_ident.1, key _ (fun np h => by simp [h])⟩
+  · exact ⟨const_names_ident.2.1, key _ (fun np h => by simp [h])⟩
+  · exact ⟨const_names_ident.2.2.1, key _ (fun np h => by simp [h])⟩
+
+theorem exportEntries_wf (abs : Str → Str) (s : Spec) (h : Spec.WF abs s) :
+    ∀ e ∈ exportEntries abs s, (Cmd.export e).WF := by
+  intro e he
+  simp only [exportEntries, bobExports, List.mem_append, List.mem_cons, List.mem_nil_iff, or_false, List.mem_map,
+    List.mem_filter] at he
+  rcases he with (rfl | rfl | rfl) | ⟨kv, ⟨hkv, _⟩, rfl⟩
+  · exact ⟨const_names_ident.2.2.2.1, fun p hp => by
+      obtain ⟨q, hq, rfl⟩ := List.mem_map.mp hp; exact h.paths q hq⟩
+  · exact ⟨const_names_ident.2.2.2.2.1, fun p hp => by
+      obtain ⟨q, hq, rfl⟩ := List.mem_map.mp hp; exact h.libs q hq⟩
+  · exact ⟨const_names_ident.2.2.2.2.2, fun p hp => by
+      have : p = abs s.cwd := by simpa using hp
+      rw [this]; exact h.cwd⟩
+  · exact ⟨(h.envIdent kv hkv).1, fun p hp => by
+      have : p = kv.2 := by simpa using hp
+      rw [this]; exact (h.envIdent kv hkv).2⟩
+
+theorem prologCmds_wf (abs : Str → Str) (s : Spec) (h : Spec.WF abs s) : ∀ c ∈ prologCmds abs s false, c.WF := by
+  intro c hc
+  simp only [prologCmds, prologHead, Bool.false_eq_true, if_false, List.append_nil, List.mem_append, List.mem_map,
+    List.mem_cons, List.mem_nil_iff, or_false] at hc
+  rcases hc with (((⟨t, ht, rfl⟩ | rfl) | hc) | (rfl | rfl)) | ⟨e, he, rfl⟩
+  · exact lineOk_wf (List.all_eq_true.mp const_lines_ok.1 t ht)
+  · exact lineOk_wf const_lines_ok.2.1
+  · exact arrayCmds_wf abs s h c hc
+  · exact lineOk_wf const_lines_ok.2.2.2
+  · exact lineOk_wf const_lines_ok.2.2.1
+  · exact exportEntries_wf abs s h e (mem_sortExports.mp he)
+
+theorem prologHead_noexport (abs : Str → Str) (s : Spec) : ∀ c ∈ prologHead abs s false, ∀ e, c ≠ .export e := by
+  intro c hc e
+  simp only [prologHead, arrayCmds, Bool.false_eq_true, if_false, List.append_nil, List.mem_append, List.mem_map,
+    List.mem_cons, List.mem_nil_iff, or_false] at hc
+  rcases hc with (((⟨t, _, rfl⟩ | rfl) | (rfl | rfl | rfl)) | (rfl | rfl)) <;> simp
+
+theorem prolog_fold_env (abs : Str → Str) (s : Spec) (sh : Sh) :
+    ((prologCmds abs s false).foldl Cmd.eval sh).env = exportsEnv sh.env (sortExports (exportEntries abs s)) := by
+  simp only [prologCmds, List.foldl_append, foldl_export_cmds]
+  rw [foldl_eval_env _ _ (prologHead_noexport abs s)]
+
+/-! ### the entries of the export block -/
+
+theorem exportEntries_names (abs : Str → Str) (s : Spec) :
+    (exportEntries abs s).map Export.name =
+      [Consts.C13.varPath, Consts.C13.varLdLibraryPath, Consts.C13.varBobCwd] ++
+        keys (s.env.filter fun kv => !isBobVar kv.1) := by
+  simp [exportEntries, bobExports, keys, List.map_map, Function.comp_def]
+
+theorem filter_keys_nodup (e : Env) (p : Str × Str → Bool) (h : (keys e).Nodup) : (keys (e.filter p)).Nodup := by
+  induction e with
+  | nil => simp [keys]
+  | cons x r ih =>
+    simp only [keys, List.map_cons, List.nodup_cons] at h
+    by_cases hp : p x = true
+    · simp only [List.filter, hp, keys, List.map_cons, List.nodup_cons]
+      refine ⟨?_, ih h.2⟩
+      intro hm
+      obtain ⟨y, hy, e⟩ := List.mem_map.mp hm
+      exact h.1 (List.mem_map.mpr ⟨y, (List.mem_filter.mp hy).1, e⟩)
+    · simp only [Bool.not_eq_true] at hp
+      simp only [List.filter, hp]
+      exact ih h.2
+
+theorem exportEntries_nodup (abs : Str → Str) (s : Spec) (h : (keys s.env).Nodup) :
+    ((exportEntries abs s).map Export.name).Nodup := by
+  rw [exportEntries_names, List.nodup_append]
+  refine ⟨?_, filter_keys_nodup _ _ h, ?_⟩
+  · have := const_names_distinct
+    simp [this.1, this.2.1, this.2.2]
+  · intro a ha b hb e
+    subst e
+    obtain ⟨kv, hkv, rfl⟩ := List.mem_map.mp hb
+    have hnb := (List.mem_filter.mp hkv).2
+    simp only [List.mem_cons, List.mem_nil_iff, or_false] at ha
+    simp only [isBobVar, Bool.not_eq_true', Bool.or_eq_false_iff, decide_eq_false_iff_not] at hnb
+    rcases ha with ha | ha | ha
+    · exact hnb.1.1 ha
+    · exact hnb.1.2 ha
+    · exact hnb.2 ha
+
+theorem sortExports_nodup (abs : Str → Str) (s : Spec) (h : (keys s.env).Nodup) :
+    ((sortExports (exportEntries abs s)).map Export.name).Nodup :=
+  (((List.mergeSort_perm (exportEntries abs s) _).map Export.name).nodup_iff).mpr (exportEntries_nodup abs s h)
+
+theorem exportEntries_withPath (abs : Str → Str) (s : Spec) :
+    ∀ y ∈ sortExports (exportEntries abs s), y.withPath = true → y.name = Consts.C13.varPath := by
+  intro y hy hw
+  rw [mem_sortExports] at hy
+  simp only [exportEntries, bobExports, List.mem_append, List.mem_cons, List.mem_nil_iff, or_false, List.mem_map] at hy
+  rcases hy with (rfl | rfl | rfl) | ⟨kv, _, rfl⟩ <;> simp_all
 
 end ShellEnv
